@@ -33,6 +33,8 @@ func runOne(spec string, sch *drivers.Schedule) []drivers.TraceLine {
 		return drivers.NewHealthRun(sch).Run()
 	case "async":
 		return drivers.NewAsyncRun(sch).Run()
+	case "wire":
+		return drivers.NewWireRun(sch).Run()
 	case "membercb":
 		return drivers.NewMemberCBRun(sch).Run()
 	}
